@@ -286,7 +286,11 @@ func (fx *FuncExec) havocByRule(st *State, pkg *types.Package, args []Val, binds
 				}
 			}
 			if !named {
-				apply = murex
+				// memory of universe-only types ([]byte, *int, map[string]string ...): any package
+				// can hold it, but only what it was given. Other packages reach ours only through
+				// the arguments of this call (handled below); code of the same package may also
+				// reach it through package-level state.
+				apply = pkg.Path() == fx.V.fnPkg(fx.fn).Path()
 			}
 		}
 		if apply {
